@@ -380,7 +380,7 @@ theorem qinv_sync (st : St) (h : QInv st) : QInv st.sync := by
     simp only at hl'
     rw [hl] at hl'
     cases hl'
-    exact parse_serialize tableOK_generated l
+    exact parseBody_serialize_id tableOK_generated l
 
 theorem qinv_step (st st' : St) (op : Op) (hi : QInv st) (h : step st op = .ok st') : QInv st' := by
   cases op with
